@@ -20,13 +20,6 @@ import Gama.Model.Ls.Common
 import Gama.Model.Ls.Env
 open Gama Gama.Proto Gama.Ls Gama.C04
 
-structure Info where
-  n : Nat
-  nullity : Nat
-  invp : Array Nat          -- 1-based: invp[i-1]
-  width : Array Nat
-  rows : Array (List Nat)
-
 structure St where
   build : Option (PBuild Float) := none
   prob : Option (Problem Float) := none
@@ -38,23 +31,7 @@ structure St where
   info : Option Info := none
   st : Option EnvState := none
   active : Bool := false     -- `new env solver` seen
-
-def Info.perm (f : Info) (k : Nat) : Nat :=      -- inverse of invp
-  match (List.range f.n).find? (fun i => f.invp.getD i 0 == k) with
-  | some i => i + 1
-  | none => 0
-
-def Info.inEnvF (f : Info) (ii jj : Nat) : Bool :=
-  let hi := max ii jj
-  let lo := min ii jj
-  hi - lo ≤ f.width.getD (hi - 1) 0
-
-def Info.toInput (f : Info) (resolves : List Nat → Bool) : EnvInput :=
-  { n := f.n, nullity := f.nullity, invp := fun i => f.invp.getD (i - 1) 0,
-    inEnv := f.inEnvF, resolves := resolves,
-    qbbIn := fun i j =>
-      (f.rows.getD (i - 1) []).all fun k => (f.rows.getD (j - 1) []).all fun l =>
-        f.inEnvF (f.invp.getD (k - 1) 0) (f.invp.getD (l - 1) 0) }
+  bufDim : Nat := 0          -- `HState.bufDim` (dimension of the qxxbuf vectors)
 
 def parseInfo (ts : List String) : Option Info := do
   let nums ← ts.mapM (fun t => if t == "invp" ∨ t == "width" ∨ t == "rows" then some 0 else t.toNat?)
@@ -94,8 +71,6 @@ def showState (s : EnvState) : String :=
   let keys := s.mtf.ents.foldl (fun a (k, v) => a ++ s!" {k}:{v}") ""
   s!"st {s.stage} {b s.iqbb} {b s.ires} {b s.iq0} {b s.ix} minx{minx} keys{keys}"
 
-def regOf (l : Option (List Nat)) : Reg := match l with | none => .all | some l => .subset l
-
 def showVec (v : Array Float) : String := "vec" ++ v.foldl (fun s x => s ++ " " ++ showFloat x) ""
 def showE (f : α → String) : Except ErrKind α → String
   | .ok a => f a
@@ -111,9 +86,10 @@ def showD : DVal Float → String
   | .stale w => "stale " ++ w
 
 /-- the numeric world of the case: problems by identity, inverse orderings from the `envinfo` facts -/
-def world (s : St) : World Float :=
-  { prob := fun d => s.probs.getD (d - 1) { m := 0, n := 0, rows := #[], cov := #[], rhs := #[], reg := .none }
-    perm := fun d k => match s.infos.getD (d - 1) none with | some f => f.perm k | none => 0 }
+def world (s : St) : World Float := worldOf s.probs s.infos
+
+/-- the problem the object currently holds -/
+def curProb (s : St) : Problem Float := (world s).prob s.cur
 
 /-- numeric value of a symbolic answer: `denote` on the data sets the term names -/
 def evalOut (s : St) (cur : Option (List Nat)) (o : Out) : String := showD (denote (world s) s.cur cur o)
@@ -132,10 +108,6 @@ def parseOp (ts : List String) : Option Op :=
       if l.length = k then some (.minx l) else none
   | ["reset"] => some .reset
   | _ => none
-
-/-- the generator only configures lists that resolve the defect (decided exactly); a list is
-    treated as non-resolving only when it is empty or shorter than the defect -/
-def resolvesDefault (nullity : Nat) (l : List Nat) : Bool := decide (nullity ≤ l.length)
 
 def step' (s : St) (line : String) : St × String :=
   let ts := tokens line
@@ -168,20 +140,26 @@ def step' (s : St) (line : String) : St × String :=
     | none => (s, "bad-op")
   | ["new", "env", "solver"] =>
     let m0 : Option (List Nat) := match p.reg with | .subset l => some l | _ => none
-    ({ s with active := true, st := some (Gama.C04.init m0), info := none, cur := s.sel }, "ok")
+    ({ s with active := true, st := some (Gama.C04.init m0), bufDim := 0, info := none, cur := s.sel }, "ok")
   | ["reset_new", k] =>
     match k.toNat?, s.st with
     | some k, some st =>
       if 1 ≤ k ∧ k ≤ s.probs.size then
         -- `reset(data')`: the model's `reset` looks at neither input
         let dummy : EnvInput := { n := 0, nullity := 0, invp := id, inEnv := fun _ _ => true, resolves := fun _ => true, qbbIn := fun _ _ => true }
-        let h' := (hstep ⟨dummy, st⟩ (.resetNew dummy)).1
-        ({ s with st := some h'.s, cur := k, info := none }, "ok")
+        let h' := (hstep ⟨dummy, st, s.bufDim⟩ (.resetNew dummy)).1
+        ({ s with st := some h'.s, bufDim := h'.bufDim, cur := k, info := none }, "ok")
       else (s, "bad-op")
     | _, _ => (s, "bad-op")
   | "envinfo" :: rest =>
     match parseInfo rest with
-    | some f => ({ s with info := some f, infos := s.infos.setIfInBounds (s.cur - 1) (some f) }, " ".intercalate ts)
+    | some f =>
+      -- round 4: the facts must describe the numeric problem (`Info.agrees`: ordering 1-based and injective on
+      -- 1..n, size and defect those of `envSolve`); then `toInputOf_pos`, `worldOf_describes`, `toInputOf_facts`
+      -- make the input an instance of the C04 theorems
+      if f.agrees (curProb s) then
+        ({ s with info := some f, infos := s.infos.setIfInBounds (s.cur - 1) (some f) }, " ".intercalate ts)
+      else (s, s!"envinfo-does-not-describe-the-problem n {f.n} nullity {f.nullity} model-n {(curProb s).n} model-defect {defectP (curProb s)}")
     | none => (s, "bad-op")
   | ["state"] =>
     match s.st with
@@ -190,15 +168,15 @@ def step' (s : St) (line : String) : St × String :=
   | "fresh" :: q =>
     match s.st, s.info, parseOp q with
     | some st, some f, some op =>
-      let inp := { f.toInput (resolvesDefault f.nullity) with id := s.cur }
+      let inp := f.toInputOf (curProb s) s.cur
       (s, evalOut s st.minx (Gama.C04.fresh inp st.minx op))
     | _, _, _ => (s, "bad-op")
   | _ =>
     match s.st, s.info, parseOp ts with
     | some st, some f, some op =>
-      let inp := { f.toInput (resolvesDefault f.nullity) with id := s.cur }
-      let r := hstep ⟨inp, st⟩ (.q op)
-      ({ s with st := some r.1.s }, evalOut s r.1.s.minx r.2)
+      let inp := f.toInputOf (curProb s) s.cur
+      let r := hstep ⟨inp, st, s.bufDim⟩ (.q op)
+      ({ s with st := some r.1.s, bufDim := r.1.bufDim }, evalOut s r.1.s.minx r.2)
     | _, _, _ => (s, "bad-op")
 
 def main : IO Unit := loop step' {}
